@@ -130,6 +130,33 @@ fn history(op: u16, pair: u16, a: u128, b: u128, h: u32) -> Vec<(u16, u128, u128
     v
 }
 
+fn hammer_threads() -> u64 {
+    std::env::var("VERIF_THREADS").ok().and_then(|s| s.parse().ok()).unwrap_or(16u64).max(1)
+}
+/// Case `i` of the concurrency hammer. The runner gives worker `t` the indices `t, t + w, t + 2w, ...`; the mapping
+/// makes every worker evaluate each of its cases twice in a row, and different workers different cases at the same time.
+fn hammer_case(prop: &str, i: u64) -> Case {
+    let w = hammer_threads();
+    let (t, j) = (i % w, i / w);
+    let k = (t + w * (j / 2)) % 64;
+    let (op, pairs): (u16, &[u16]) = match prop {
+        "C13" => (SQRT, &[4, 8, 0, 19, 1, 3, 18, 2]),
+        "C14" => (if k % 2 == 0 { LOG2 } else { LN }, &[4, 8, 0, 1, 3, 2]),
+        _ => (if k % 3 == 0 { POW } else { EXP }, &[4, 8, 0, 1, 3, 2]),
+    };
+    let pair = pairs[(k as usize / 2) % pairs.len()];
+    let (sl, _, _) = pair_info(pair as usize);
+    let one = 1u128 << sl.f;
+    let k = if sl.int_bits() < 16 { k % 12 } else { k };
+    let (a, b) = match op {
+        SQRT => (((k + 2) * (k + 2)) as u128 * one, 0),
+        LOG2 | LN => ((k + 2) as u128 * one + (k as u128) * (one >> 5), 0),
+        EXP => ((k as u128) * (one >> 3), 0),
+        _ => (one + (k + 1) as u128 * (one >> 4), 3 * one),
+    };
+    Case { op, lay: sl.idx() as u16, lay2: pair, a: a & sl.mask(), b, ..Case::default() }
+}
+
 fn funs_of(prop: &str) -> &'static [u16] {
     match prop {
         "C12" | "C17" => &[SQRT, LOG2, LN, EXP, POW, POWI, SIN, COS, TAN],
@@ -769,10 +796,16 @@ impl Engine for Math {
             // every I9F23 angle with |x| <= 200, x 3 functions (thorough); quick: every 1024th
             ("C16", Tier::Thorough) => 3 * (2 * (200u64 << 23) + 1),
             ("C16", Tier::Quick) => 3 * ((2 * (200u64 << 23)) / 1024 + 1),
+            // concurrency hammer (see `hammer_case`)
+            ("C13" | "C14" | "C15", Tier::Quick) => hammer_threads() * 2 * 6_000,
+            ("C13" | "C14" | "C15", Tier::Thorough) => hammer_threads() * 2 * 200_000,
             _ => 0,
         }
     }
-    fn exh_case(&self, _prop: &str, tier: Tier, i: u64) -> Case {
+    fn exh_case(&self, prop: &str, tier: Tier, i: u64) -> Case {
+        if prop != "C16" {
+            return hammer_case(prop, i);
+        }
         let stride: u64 = if tier == Tier::Thorough { 1 } else { 1024 };
         let per = (2 * (200u64 << 23)) / stride + 1;
         let op = [SIN, COS, TAN][(i / per) as usize];
@@ -784,6 +817,7 @@ impl Engine for Math {
         match (prop, tier) {
             ("C16", Tier::Thorough) => "every I9F23 bit pattern with |x| <= 200 x {sin, cos, tan} (tan asserted for |x| <= 100, |tan x| <= 64)".into(),
             ("C16", Tier::Quick) => "every 1024th I9F23 bit pattern with |x| <= 200 x {sin, cos, tan}".into(),
+            ("C13" | "C14" | "C15", _) => "concurrency hammer: every worker thread makes each of its own calls twice in a row (64 simple operands on common types, judged by the ordinary oracle) while the other workers make theirs: state shared between calls or threads shows as a wrong result".into(),
             _ => String::new(),
         }
     }
